@@ -17,6 +17,7 @@ pub fn run_plan(plan: &Plan, keep: bool) -> RunOutput {
         "expert" => run_with(plan, keep, crate::expert::run_on_this_thread),
         "map" => run_with(plan, keep, crate::mapeng::run_on_this_thread),
         "limits" => run_with(plan, keep, crate::limits::run_on_this_thread),
+        "templates" => run_with(plan, keep, crate::templates::run_on_this_thread),
         e => panic!("engine {e} not built yet"),
     }
 }
